@@ -14,16 +14,30 @@ import (
 // must carry a signature that is valid (crypto/rsa) for the signed portion as stored.
 func (r *run) sweeps() {
 	c := r.c
+	// quick tier, per manifest kind AND key size: every bit of 2 files (RSA-2048) resp. 1
+	// file (RSA-3072), a stride over 3 more; thorough: every bit of every file
 	fullPerKind := map[string]int{}
+	stridePerKind := map[string]int{}
 	total, accepted := 0, 0
 	for _, sf := range r.signed {
-		if !sf.verifies {
+		if !sf.verifies || r.nosweep[sf.name] {
 			continue
 		}
-		kind := fmt.Sprintf("gen%d-%s", sf.gen, docName(sf.doc))
-		all := c.Thorough() || fullPerKind[kind] < 3 || sf.by == "artifact"
+		keyBytes := sf.lay.keyData[1] - sf.lay.keyData[0] - 4
+		kind := fmt.Sprintf("gen%d-%s-rsa%d", sf.gen, docName(sf.doc), keyBytes*8)
+		fullWanted := 2
+		if keyBytes > 256 {
+			fullWanted = 1
+		}
+		all := c.Thorough() || fullPerKind[kind] < fullWanted || sf.by == "artifact"
 		if all {
 			fullPerKind[kind]++
+		} else {
+			if stridePerKind[kind] >= 3 {
+				c.Count("sweep/not-swept-in-quick-tier")
+				continue
+			}
+			stridePerKind[kind]++
 		}
 		n, a := r.sweepFile(sf, all)
 		total += n
